@@ -47,6 +47,11 @@ TABLE = {
                 ref="7 C08",
                 note="Trusted: TLC, ModeOps, the mode replay runner (enters/exits context managers by hand). Single thread and "
                      "single contextvars context; threads/asyncio tasks are not modelled."),
+    "C19": dict(text="G1/G2 programs (operands, selected attribute expressions, predicate arguments) executed on worlds whose "
+                     "values are mostly 0, '', [], None and judged by TLC against the denotation (Val never consults truthiness); "
+                     "plus an oracle-free twin: program and world shifted away from falsy must return the same rows by index.",
+                technique="TLA+ denotational spec + TLC-generated programs replayed on falsy-rich data + TLC trace validation + metamorphic shift twin",
+                ref="7 C19"),
 }
 
 REASON_PENDING = "check not built yet (work in progress; see DESIGN.md section 10)"
